@@ -422,4 +422,127 @@ def addEntry (e : IdxEntry) : List Index → List Index
 
 def parseIndexes (es : List IdxEntry) : List Index := es.foldl (fun acc e => addEntry e acc) []
 
+/-! ### Relationship.ParseConstraint (schema/relationship.go lines 651-717) -/
+
+inductive RelType where | belongsTo | hasOne | hasMany | many2many
+deriving Repr, DecidableEq
+
+/-- a `*schema.Field` as ParseConstraint reads it: pointer identity `id`, and the identity of `field.Schema` -/
+structure FieldId where
+  id : Str
+  schema : Str
+deriving Repr, DecidableEq
+
+/-- `schema.Reference` -/
+structure Ref where
+  primaryKey : Option FieldId     -- nil for the type value of a polymorphic relation
+  primaryValue : Str
+  foreignKey : FieldId
+  ownPrimaryKey : Bool
+deriving Repr, DecidableEq
+
+/-- `schema.Relationship`: `key` stands for the pointer identity (`r != rel`), schemas are identities of `*schema.Schema` -/
+structure Rel where
+  key : Str
+  typ : RelType
+  schema : Str
+  fieldSchema : Str
+  refs : List Ref
+  hasJoinTable : Bool             -- rel.JoinTable != nil
+  tag : Str                       -- rel.Field.TagSettings["CONSTRAINT"]
+  defaultName : Str               -- rel.Schema.namer.RelationshipFKName(*rel)
+deriving Repr, DecidableEq
+
+structure Constraint where
+  name : Str
+  schema : Str
+  refSchema : Str
+  fks : List FieldId
+  refs : List FieldId
+  onDelete : Str
+  onUpdate : Str
+deriving Repr, DecidableEq
+
+def upperC (c : Char) : Char := if 'a' ≤ c ∧ c ≤ 'z' then Char.ofNat (c.toNat - 32) else c
+def upper (s : Str) : Str := s.map upperC
+
+/-- strings.Split(s, c) for a one-character separator -/
+def splitOn (c : Char) : Str → List Str
+  | [] => [[]]
+  | x :: xs =>
+    if x = c then [] :: splitOn c xs
+    else match splitOn c xs with
+      | [] => [[x]]
+      | h :: t => (x :: h) :: t
+
+def joinWith (c : Char) : List Str → Str
+  | [] => []
+  | [a] => a
+  | a :: b :: r => a ++ c :: joinWith c (b :: r)
+
+/-- `ParseTagSetting(str, ",")[key]` ("" when absent) for tag text without a backslash (schema/utils.go lines 16-45) -/
+def tagSetting (str key : Str) : Str :=
+  (splitOn ',' str).foldl (fun acc part =>
+    match splitOn ':' part with
+    | [] => acc
+    | [k0] => let k := trimSpace (upper k0); if k = key && k != [] then k else acc
+    | k0 :: rest => if trimSpace (upper k0) = key then joinWith ':' rest else acc) []
+
+def indexOf (c : Char) : Str → Option Nat
+  | [] => none
+  | x :: xs => if x = c then some 0 else (indexOf c xs).map (· + 1)
+
+def isWordC (c : Char) : Bool := ('a' ≤ c && c ≤ 'z') || ('A' ≤ c && c ≤ 'Z') || isDigit c || c = '_' || c = '-'
+/-- `regEnLetterAndMidline = ^[\w-]+$` -/
+def isWordMid (s : Str) : Bool := s != [] && s.all isWordC
+
+/-- the constraint name (lines 683-687): the text before the first comma when it is a word, else the namer's name -/
+def constraintName (rel : Rel) : Str :=
+  match indexOf ',' rel.tag with
+  | some i => if isWordMid (rel.tag.take i) then rel.tag.take i else rel.defaultName
+  | none => rel.defaultName
+
+/-- what the belongs-to fold compares per reference (line 663-664) -/
+def Ref.core (r : Ref) : Option FieldId × FieldId × Str := (r.primaryKey, r.foreignKey, r.primaryValue)
+
+/-- the `for idx, ref := range r.References` loop (second argument) against `rel.References[idx]` (first argument);
+    the caller has checked that both have the same length -/
+def refsMatch : List Ref → List Ref → Bool
+  | a :: as, b :: bs => (a.core == b.core) && refsMatch as bs
+  | _, [] => true
+  | [], _ :: _ => false
+
+/-- lines 657-674: a belongs-to is folded into a relation of the referenced schema that points back with the same references -/
+def folded (rel : Rel) (parentRels : List Rel) : Bool :=
+  rel.typ == .belongsTo &&
+    parentRels.any (fun r => r.key != rel.key && r.fieldSchema == rel.schema && rel.refs.length == r.refs.length && refsMatch rel.refs r.refs)
+
+/-- one iteration of the loop at lines 697-711 -/
+def constraintStep (rel : Rel) (c : Constraint) (ref : Ref) : Constraint :=
+  match ref.primaryKey with
+  | some pk =>
+    if !rel.hasJoinTable || ref.ownPrimaryKey then
+      if ref.ownPrimaryKey then
+        { c with fks := c.fks ++ [ref.foreignKey], refs := c.refs ++ [pk], schema := ref.foreignKey.schema, refSchema := rel.schema }
+      else
+        { c with fks := c.fks ++ [ref.foreignKey], refs := c.refs ++ [pk], schema := rel.schema, refSchema := pk.schema }
+    else c
+  | none => c
+
+/-- lines 689-712 -/
+def buildConstraint (rel : Rel) : Constraint :=
+  rel.refs.foldl (constraintStep rel)
+    { name := constraintName rel, schema := [], refSchema := [], fks := [], refs := [],
+      onDelete := tagSetting rel.tag "ONDELETE".toList, onUpdate := tagSetting rel.tag "ONUPDATE".toList }
+
+/-- `(*Relationship).ParseConstraint`; `parentRels` = `rel.FieldSchema.Relationships.Relations` (any order) -/
+def parseConstraint (rel : Rel) (parentRels : List Rel) : Option Constraint :=
+  if rel.tag = ['-'] then none
+  else if folded rel parentRels then none
+  else some (buildConstraint rel)
+
+/-- the statement text of `Migrator.AddColumn` (lines 387-392): `ALTER TABLE ? ADD ? ?` with the FULL data type -/
+def addColumnSQL (t : Str) (f : FieldDecl) : Str :=
+  "ALTER TABLE `".toList ++ t ++ "` ADD `".toList ++ f.dbName ++ "` ".toList ++ fullDataTypeOf f
+
 end Gorm.Mig
